@@ -29,7 +29,9 @@ META = {
     "level_note": "Tolerance: |date - reference date| <= precision/timing (1e-9 s, the documented default, which is also the window in which the lazy "
                   "heap and update_max_duration merge events) + 4 ulp of the date per time advance of the run (each advance rounds now += delta and "
                   "remains -= rate*delta once). No term is fitted to what was observed; the largest deviation seen is reported in the evidence "
-                  "(worst_deviation_over_tolerance, about 0.1 on the unchanged tree). Not judged (counted in the evidence): a workload whose reference "
+                  "(worst_deviation_over_tolerance, about 0.1 on the unchanged tree). Under cpu/optim:TI only, each exec small enough to fall under the "
+                  "model's own constant (cpu_ti.cpp: EPSILON = 1e-9 s of full-speed time, work below it completes at once) adds 1e-9 / (smallest "
+                  "availability of the speed profiles) to the tolerance. Not judged (counted in the evidence): a workload whose reference "
                   "run evaluates a guarded control ('is the target still running?') within 1e-7 s of the completion of its target, or has two "
                   "simultaneously pending completions at distinct dates closer than 4e-9 s (the program's control flow / the merging of events then "
                   "legitimately depends on comparisons below the precision); a workload on which SimGrid aborts under every configuration alike. "
@@ -193,7 +195,7 @@ def judge(ctx, w, flavour, results, corrupt=None):
             continue
         if corrupt:
             r = corrupt(cfg, r)
-        res = orc.compare(ref, r)
+        res = orc.compare(ref, r, orc.precision_for(w, cfg))
         wit = {"workload": w, "cfg": list(cfg), "flavour": flavour}
         ctx.count("dates_compared", len(ref["ev"]))
         ctx.count("comparisons." + cfg_name(cfg))
@@ -210,7 +212,7 @@ def judge(ctx, w, flavour, results, corrupt=None):
         if cfg[0] != REF[0] and cfg[1] != REF[1] and not corrupt:
             for other, name in (((cfg[0], REF[1]), "cpu"), ((REF[0], cfg[1]), "network")):
                 o = results.get(other)
-                if o is not None and o["status"] == "ok" and not orc.agree(orc.compare(ref, o)) and orc.agree(orc.compare(o, r)):
+                if o is not None and o["status"] == "ok" and not orc.agree(orc.compare(ref, o, orc.precision_for(w, other))) and orc.agree(orc.compare(o, r)):
                     ctx.count("disagreements_already_reported_by_the_run_changing_only_the_%s_option" % name)
                     pair = "skip"
                     break
